@@ -44,6 +44,7 @@ type AltGoal struct {
 }
 
 type Ctx struct {
+	alts   map[int]string // item index -> variant for solvers without lambda support (cvc5)
 	items  []string
 	sorts  map[string]bool
 	funs   map[string]string // declared function/const name -> sort signature
@@ -53,7 +54,7 @@ type Ctx struct {
 }
 
 func NewCtx(fn string) *Ctx {
-	return &Ctx{sorts: map[string]bool{}, funs: map[string]string{}, fnName: fn}
+	return &Ctx{sorts: map[string]bool{}, funs: map[string]string{}, fnName: fn, alts: map[int]string{}}
 }
 
 func (c *Ctx) DeclSort(s string) {
@@ -146,6 +147,27 @@ func (c *Ctx) ConstArr(ksort, vsort, val string) string {
 		c.DeclFun(name, nil, arrSort(ksort, vsort))
 		c.Assume(fmt.Sprintf("(forall ((i %s)) (! (= (select %s i) %s) :pattern ((select %s i))))", ksort, name, val, name))
 	}
+	return name
+}
+
+var useLambda = os.Getenv("GOVC_LAMBDA") != "0"
+
+// DefineArrLambda defines an array pointwise: name[r] = body(r). z3 gets a lambda term (selects beta-reduce, no
+// quantifier instantiation needed); cvc5 gets a constant with the defining quantified axiom.
+func (c *Ctx) DefineArrLambda(prefix, ksort, vsort string, body func(r string) string) string {
+	c.ensureSorts(ksort + " " + vsort)
+	name := c.fresh(prefix)
+	r := c.boundVar("r")
+	b := body(r)
+	srt := arrSort(ksort, vsort)
+	quant := fmt.Sprintf("(declare-fun %s () %s)\n(assert (forall ((%s %s)) (! (= (select %s %s) %s) :pattern ((select %s %s)))))", name, srt, r, ksort, name, r, b, name, r)
+	if useLambda {
+		c.items = append(c.items, fmt.Sprintf("(define-fun %s () %s (lambda ((%s %s)) %s))", name, srt, r, ksort, b))
+		c.alts[len(c.items)-1] = quant
+	} else {
+		c.items = append(c.items, quant)
+	}
+	c.funs[name] = srt
 	return name
 }
 
@@ -281,7 +303,18 @@ func (o *Obligation) Script(forSolver string, timeoutMs int, wantModel bool) str
 			b.WriteString("(set-option :produce-models true)\n")
 		}
 	}
-	b.WriteString(relevantItems(o.Ctx.items[:o.Prefix], o.Guard+" "+o.Goal))
+	items := o.Ctx.items[:o.Prefix]
+	if forSolver == "cvc5" && len(o.Ctx.alts) > 0 {
+		cp := make([]string, len(items))
+		copy(cp, items)
+		for i, a := range o.Ctx.alts {
+			if i < len(cp) {
+				cp[i] = a
+			}
+		}
+		items = cp
+	}
+	b.WriteString(relevantItems(items, o.Guard+" "+o.Goal))
 	fmt.Fprintf(&b, "; obligation %s\n", o.Name)
 	fmt.Fprintf(&b, "(assert (not %s))\n", implies(o.Guard, o.Goal))
 	b.WriteString("(check-sat)\n")
